@@ -118,6 +118,34 @@ def concat_cases(tier):
         'trailing': trailing_bytes()})
 
 
+def check_long_tail(case):
+    """one small frame followed by a very long tail (up to 64 MiB): the result may not
+    depend on how much data follows"""
+    from pbt import wire
+    data = wire.render_frame(wire.catalogue_frames()[case['frame']])[0]
+    want = solo(data)
+    fill = bytes(case['fill'])
+    tail = (fill * (case['tail'] // len(fill) + 1))[:case['tail']]
+    res = call('unmarshal-long-tail', frame.unmarshal, data + tail)
+    if res[0] != len(data) or (res[1], dump_frame(res[2])) != want:
+        raise Violation('trailing-dependence', 'a %d-byte frame followed by %d more '
+                        'bytes: consumed %r, result differs from decoding it alone' %
+                        (len(data), case['tail'], res[0]))
+    return ['tail>=16MiB' if case['tail'] >= 2 ** 24 else 'tail<16MiB']
+
+
+def long_tail_cases(tier, shard, nshards):
+    sizes = sorted({2 ** k + d for k in (16, 20, 22, 24, 25, 26) for d in (-9, -8, 0, 1)} |
+                   {2 ** 24 - 8 - n for n in (12, 21, 40)})
+    out = []
+    for i, n in enumerate(sizes):
+        for fi, fidx in enumerate((0, 5, 64, 65, 66, 67)):
+            out.append({'frame': fidx, 'tail': n,
+                        'fill': [b'\x00', b'\xce', b'\x01\x00\x01\x00\x00\x00\x04']
+                        [(i + fi) % 3]})
+    return out[shard::nshards]
+
+
 # ---------------------------------------------------------------- stream machine
 
 def check_stream(case):
@@ -316,6 +344,10 @@ COMPONENTS = [
               nontrivial=concat_nontrivial, classes=concat_classes,
               budget={'quick': 6400, 'thorough': 128000},
               describe='N concatenated frames + trailing bytes'),
+    Component('long-tail', check_long_tail, cases=long_tail_cases,
+              nontrivial=lambda c: True, distinct_by_construction=True,
+              describe='a small frame of each kind followed by 64 KiB .. 64 MiB of data '
+                       '(sizes around every power of two, incl. 16 MiB +- the frame size)'),
     Component('stream', check_stream, strategy=stream_cases,
               nontrivial=stream_nontrivial,
               budget={'quick': 4800, 'thorough': 96000},
